@@ -215,6 +215,13 @@ class TypeTable:
                                 if in_ctor and isinstance(sub.value, ast.Name) and sub.value.id == "self":
                                     continue
                                 out.add(sub.attr)
+                    if isinstance(n, ast.Call) and isinstance(n.func, ast.Attribute) and isinstance(n.func.value, ast.Attribute) \
+                            and n.func.attr in ("append", "extend", "update", "add", "pop", "clear", "sort", "insert", "remove", "setdefault"):
+                        out.add(n.func.value.attr)
+                    if isinstance(n, (ast.Assign, ast.AugAssign)):
+                        for t in (n.targets if isinstance(n, ast.Assign) else [n.target]):
+                            if isinstance(t, ast.Subscript) and isinstance(t.value, ast.Attribute):
+                                out.add(t.value.attr)
                     if isinstance(n, ast.Call) and ast.unparse(n.func) in ("object.__setattr__", "setattr"):
                         if len(n.args) >= 2 and isinstance(n.args[1], ast.Constant):
                             if fi.name != "__post_init__":
